@@ -177,3 +177,47 @@ package fastaio
 //@     invariant n == hdrs && l == gLen && hdrs >= 0
 //@   after call:Text#1: do if len(line) > 0 && line[0] == '>' { hdrs++ } else { if hdrs == 1 { gLen += len(line) } }
 //@   ensures implies(result3 == nil, result1 == hdrs && result2 == gLen)
+
+//@ # C17/C16: record-level conversions
+//@ func FastaRecord.Encode
+//@   requires forall(j, 0, len(FR.Seq), FR.Seq[j] < 128)
+//@   loop 1:
+//@     invariant len(seq) == len(FR.Seq) && forall(j, 0, range_i, seq[j] == EA[FR.Seq[j]])
+//@   ensures result.ID == FR.ID && result.Description == FR.Description && result.Idx == FR.Idx && len(result.Seq) == len(FR.Seq)
+//@   ensures forall(j, 0, len(FR.Seq), result.Seq[j] == encoding.MakeEncodingArray()[FR.Seq[j]])
+
+//@ func FastaRecord.Complement
+//@   loop 1:
+//@     invariant 0 <= i && i <= len(FR.Seq) && len(ba) == len(FR.Seq) && forall(j, 0, i, ba[j] == CA[FR.Seq[j]])
+//@   ensures result.ID == FR.ID && result.Description == FR.Description && result.Idx == FR.Idx && len(result.Seq) == len(FR.Seq)
+//@   ensures forall(j, 0, len(FR.Seq), result.Seq[j] == alphabet.MakeCompArray()[FR.Seq[j]])
+
+//@ func FastaRecord.ReverseComplement
+//@   loop 1:
+//@     invariant 0 <= i && i + j == len(FR.Seq) - 1 && len(temp) == len(FR.Seq)
+//@     invariant forall(k, 0, i, temp[k] == alphabet.MakeCompArray()[FR.Seq[len(FR.Seq)-1-k]])
+//@     invariant forall(k, j+1, len(FR.Seq), temp[k] == alphabet.MakeCompArray()[FR.Seq[len(FR.Seq)-1-k]])
+//@     invariant forall(k, i, j+1, temp[k] == alphabet.MakeCompArray()[FR.Seq[k]])
+//@   ensures result.ID == FR.ID && result.Idx == FR.Idx && len(result.Seq) == len(FR.Seq)
+//@   ensures forall(k, 0, len(FR.Seq), result.Seq[k] == alphabet.MakeCompArray()[FR.Seq[len(FR.Seq)-1-k]])
+
+//@ func EncodedFastaRecord.Complement
+//@   loop 1:
+//@     invariant 0 <= i && i <= len(EFR.Seq) && len(NFR.Seq) == len(EFR.Seq) && freshslice(NFR.Seq) && forall(j, 0, i, NFR.Seq[j] == CA[EFR.Seq[j]])
+//@     invariant NFR.ID == EFR.ID && NFR.Description == EFR.Description && NFR.Idx == EFR.Idx
+//@   ensures result.ID == EFR.ID && result.Description == EFR.Description && result.Idx == EFR.Idx && len(result.Seq) == len(EFR.Seq) && freshslice(result.Seq)
+//@   ensures forall(j, 0, len(EFR.Seq), result.Seq[j] == alphabet.MakeEncodedCompArray()[EFR.Seq[j]])
+
+//@ func EncodedFastaRecord.ReverseComplement
+//@   loop 1:
+//@     invariant 0 <= i && i + j == len(EFR.Seq) - 1 && len(NEFR.Seq) == len(EFR.Seq) && freshslice(NEFR.Seq)
+//@     invariant forall(k, 0, i, NEFR.Seq[k] == alphabet.MakeEncodedCompArray()[EFR.Seq[len(EFR.Seq)-1-k]])
+//@     invariant forall(k, j+1, len(EFR.Seq), NEFR.Seq[k] == alphabet.MakeEncodedCompArray()[EFR.Seq[len(EFR.Seq)-1-k]])
+//@     invariant forall(k, i, j+1, NEFR.Seq[k] == alphabet.MakeEncodedCompArray()[EFR.Seq[k]])
+//@   ensures len(result.Seq) == len(EFR.Seq) && forall(k, 0, len(EFR.Seq), result.Seq[k] == alphabet.MakeEncodedCompArray()[EFR.Seq[len(EFR.Seq)-1-k]])
+
+//@ func EncodedFastaRecord.CalculateBaseContent
+//@   ghost gA int = 0
+//@   loop 1:
+//@     invariant counting[136] == count(k, 0, range_i, EFR.Seq[k] == 136) && counting[24] == count(k, 0, range_i, EFR.Seq[k] == 24) && counting[72] == count(k, 0, range_i, EFR.Seq[k] == 72) && counting[40] == count(k, 0, range_i, EFR.Seq[k] == 40)
+//@   ensures EFR.Count_A == count(k, 0, len(EFR.Seq), EFR.Seq[k] == 136) && EFR.Count_T == count(k, 0, len(EFR.Seq), EFR.Seq[k] == 24) && EFR.Count_G == count(k, 0, len(EFR.Seq), EFR.Seq[k] == 72) && EFR.Count_C == count(k, 0, len(EFR.Seq), EFR.Seq[k] == 40)
